@@ -191,6 +191,27 @@ func (fx *FnExec) staticCall(st *State, fn *ssa.Function, args, bindings []*Term
 			}
 			fx.trusted("arguments of the pure function " + fn.Name() + " are grammar-shaped (its preconditions are assumed at call sites, A4)")
 		}
+		// behaviours: available under their own preconditions (ghost behaviours through `instantiate`)
+		if len(con.Behs) > 0 {
+			pre := st.clone()
+			envPre := fx.contractEnv(fn, con, args, pre, pre, nil)
+			envPre.old = nil
+			envPost := fx.contractEnv(fn, con, args, pre, st, res)
+			for _, b := range con.Behs {
+				if len(b.Ghosts) > 0 {
+					fx.instantiateBeh(st, fn, con, b, envPre, envPost)
+					continue
+				}
+				var rq, en []*Term
+				for _, r := range b.Requires {
+					rq = append(rq, envPre.boolExpr(r.Expr))
+				}
+				for _, r := range b.Ensures {
+					en = append(en, envPost.boolExpr(r.Expr))
+				}
+				fx.c.Assume(Implies(st.guard, Implies(And(rq...), And(en...))))
+			}
+		}
 		return res
 	}
 	if con := fx.e.cons[fn]; con != nil {
@@ -364,6 +385,16 @@ func (fx *FnExec) applyContract(st *State, fn *ssa.Function, con *Contract, args
 		fx.assumeType(st, v, rt)
 		res = append(res, v)
 	}
+	if con.Common.AssignsAny || anyBehAssignsAny(con) {
+		// the callee may change any memory
+		if r := fx.root(); true {
+			if r.opaqueUsed == nil {
+				r.opaqueUsed = map[string]bool{}
+			}
+			r.opaqueUsed[fn.String()+" (assigns anything)"] = true
+		}
+		fx.havocHeap(st)
+	}
 	// frame: havoc assigns (which may name the results, e.g. ghost state of a fresh object)
 	envAssign := fx.contractEnv(fn, con, args, pre, pre, res)
 	locs := fx.havocAssigns(st, envAssign, con.Common.Assigns, fn, p)
@@ -491,7 +522,7 @@ func (fx *FnExec) calleeFrame(st *State, loc *assignLoc, p token.Pos) {
 		return
 	}
 	top := fx.root()
-	if top.beh == nil {
+	if top.beh == nil || top.beh.AssignsAny {
 		return
 	}
 	env := top.specEnvEntry()
@@ -1279,6 +1310,10 @@ func (fx *FnExec) wouldBeOpaque(fn *ssa.Function) bool {
 }
 
 func (fx *FnExec) funcMods(fn *ssa.Function, ms *modSet, depth int) {
+	if con := fx.e.cons[fn]; con != nil && (con.Common.AssignsAny || anyBehAssignsAny(con)) {
+		ms.opaque = true
+		return
+	}
 	if fx.pureFuncOf(fn) {
 		// no effect on the heap; a slice result is a fresh allocation
 		for i := 0; i < fn.Signature.Results().Len(); i++ {
@@ -1661,19 +1696,7 @@ func (fx *FnExec) observerHavoc(st *State) {
 		names = append(names, k)
 	}
 	sort.Strings(names)
-	keep := map[string]bool{}
-	if r := fx.root(); r.con != nil {
-		for _, g := range r.con.Keeps {
-			keep["G_"+g] = true
-			if sf := fx.e.findSpec(r.con.Pkg, g); sf != nil && sf.Ghost {
-				if rt, err := fx.e.resolveType(sf.Pkg, sf.Ret); err == nil {
-					so := ArrSort(SInt, fx.e.sortOf(rt))
-					st.heap["G_"+g] = fx.heapGet(st, "G_"+g, so)
-				}
-			}
-			fx.trusted("assumption (keeps): calls without a contract made by " + r.fn.Name() + " do not change the ghost state " + g)
-		}
-	}
+	keep := fx.keptKeys(st)
 	// objects private to the active activations (allocated here, not yet escaped) cannot be reached by the callee
 	var privs []*Term
 	for f := fx; f != nil; f = f.parent {
@@ -1759,6 +1782,12 @@ func (fx *FnExec) opaqueCall(st *State, sig *types.Signature, name string) []*Te
 		return res
 	}
 	fx.trusted("opaque call " + name + ": unconstrained results and heap effects; assumed to return normally")
+	if r := fx.root(); true {
+		if r.opaqueUsed == nil {
+			r.opaqueUsed = map[string]bool{}
+		}
+		r.opaqueUsed[name] = true
+	}
 	fx.havocHeap(st)
 	var res []*Term
 	for i := 0; i < sig.Results().Len(); i++ {
@@ -1772,6 +1801,87 @@ func (fx *FnExec) opaqueCall(st *State, sig *types.Signature, name string) []*Te
 
 // havocHeap starts a new heap epoch: every component is unknown afterwards,
 // except at the objects private to the active (inlined) activations.
+// keptKeys resolves the keeps clause of the unit under verification: ghost states (assumed untouched by
+// calls without a contract) and heap components -- fields `T.F`, `mapof(T.F)`, `elems(T.F)` -- that calls with
+// unknown effects made by the unit leave unchanged (discharged by the static obligation keeps-frames). The
+// components are materialised in st so that they survive a havoc of the whole heap.
+func (fx *FnExec) keptKeys(st *State) map[string]bool {
+	keep := map[string]bool{}
+	r := fx.root()
+	if r.con == nil {
+		return keep
+	}
+	for _, g := range r.con.Keeps {
+		if sf := fx.e.findSpec(r.con.Pkg, g); sf != nil && sf.Ghost {
+			if rt, err := fx.e.resolveType(sf.Pkg, sf.Ret); err == nil {
+				so := ArrSort(SInt, fx.e.sortOf(rt))
+				st.heap["G_"+g] = fx.heapGet(st, "G_"+g, so)
+			}
+			keep["G_"+g] = true
+			fx.trusted("assumption (keeps): calls without a contract made by " + r.fn.Name() + " do not change the ghost state " + g)
+			continue
+		}
+		ks, err := fx.e.keepDesignator(fx, r.con.Pkg, g)
+		if err != nil {
+			fx.fail("keeps %s: %v", g, err)
+		}
+		for k, so := range ks {
+			st.heap[k] = fx.heapGet(st, k, so)
+			keep[k] = true
+		}
+		fx.trusted("frame (keeps, static obligation keeps-frames): nothing reachable from the calls made by " + r.fn.Name() + " writes " + g)
+	}
+	return keep
+}
+
+// keepDesignator: `T.F` (the field), `mapof(T.F)` (the maps of that field's type), `elems(T.F)` (the slices of
+// that field's element type) -> heap components and their sorts.
+func (e *Engine) keepDesignator(fx *FnExec, pkg, g string) (map[string]Sort, error) {
+	kind := "field"
+	if strings.HasPrefix(g, "mapof(") && strings.HasSuffix(g, ")") {
+		kind, g = "map", g[6:len(g)-1]
+	} else if strings.HasPrefix(g, "elems(") && strings.HasSuffix(g, ")") {
+		kind, g = "elems", g[6:len(g)-1]
+	}
+	i := strings.LastIndex(g, ".")
+	if i < 0 {
+		return nil, fmt.Errorf("not a ghost state and not of the form T.F")
+	}
+	t, err := e.resolveType(pkg, g[:i])
+	if err != nil {
+		return nil, err
+	}
+	if _, ok := t.Underlying().(*types.Struct); !ok {
+		return nil, fmt.Errorf("%s is not a struct type", g[:i])
+	}
+	si := e.structOf(t)
+	for fi := 0; fi < si.st.NumFields(); fi++ {
+		if si.st.Field(fi).Name() != g[i+1:] {
+			continue
+		}
+		ft := si.st.Field(fi).Type()
+		switch kind {
+		case "field":
+			return map[string]Sort{fieldHeapName(si, fi): ArrSort(SInt, fx.fieldSort(si, fi))}, nil
+		case "map":
+			mt, ok := ft.Underlying().(*types.Map)
+			if !ok {
+				return nil, fmt.Errorf("%s is not a map", g)
+			}
+			dn, vn, ds, vs := fx.mapHeapNames(mt)
+			return map[string]Sort{dn: ds, vn: vs}, nil
+		case "elems":
+			sl, ok := ft.Underlying().(*types.Slice)
+			if !ok {
+				return nil, fmt.Errorf("%s is not a slice", g)
+			}
+			n, so := fx.elemHeapName(sl.Elem())
+			return map[string]Sort{n: so}, nil
+		}
+	}
+	return nil, fmt.Errorf("no field %s", g[i+1:])
+}
+
 func (fx *FnExec) havocHeap(st *State) {
 	var privs []*Term
 	for f := fx; f != nil; f = f.parent {
@@ -1783,29 +1893,13 @@ func (fx *FnExec) havocHeap(st *State) {
 	sort.Slice(privs, func(i, j int) bool { return privs[i].String() < privs[j].String() })
 	fx.c.nfresh++
 	epoch := fmt.Sprintf("e%d", fx.c.nfresh)
-	if r := fx.root(); r.con != nil {
-		for _, g := range r.con.Keeps {
-			if sf := fx.e.findSpec(r.con.Pkg, g); sf != nil && sf.Ghost {
-				if rt, err := fx.e.resolveType(sf.Pkg, sf.Ret); err == nil {
-					so := ArrSort(SInt, fx.e.sortOf(rt))
-					st.heap["G_"+g] = fx.heapGet(st, "G_"+g, so)
-				}
-			}
-		}
-	}
+	keep := fx.keptKeys(st)
 	var names []string
 	for k := range st.heap {
 		names = append(names, k)
 	}
 	sort.Strings(names)
 	oldA := fx.heapGet(st, "alloc", SInt)
-	keep := map[string]bool{}
-	if r := fx.root(); r.con != nil {
-		for _, g := range r.con.Keeps {
-			keep["G_"+g] = true
-			fx.trusted("assumption (keeps): calls without a contract made by " + r.fn.Name() + " do not change the ghost state " + g)
-		}
-	}
 	for _, k := range names {
 		if k == "alloc" || keep[k] {
 			continue
@@ -1824,4 +1918,14 @@ func (fx *FnExec) havocHeap(st *State) {
 	st.epoch = epoch
 	st.heap["alloc"] = oldA
 	fx.advanceAlloc(st)
+}
+
+
+func anyBehAssignsAny(con *Contract) bool {
+	for _, b := range con.Behs {
+		if b.AssignsAny {
+			return true
+		}
+	}
+	return false
 }
